@@ -226,7 +226,8 @@ Obs == last.op.op # "none"
 Inv_C02_RecordSet   == Obs => P_C02_RecordSet(pre, hist, disk, last.op, last.ob, last.ign)
 Inv_C02_Digests     == Obs => P_C02_Digests(pre, hist, disk, last.op, last.ob)
 Inv_C02_SingleFiles == Obs => P_C02_SingleFiles(pre, hist, disk, last.op, last.ob)
-Inv_C03_NoFalseAlarm == Obs => P_C03_NoFalseAlarm(pre, disk, last.sealed, last.op, last.ob, last.ign)
+Inv_C03_NoFalseAlarm == (Obs /\ last.op.op \in {"create", "verify", "diff"} /\ ~AmbiguousRecorded(pre, disk, last.op.R))
+                           => P_C03_NoFalseAlarm(pre, disk, last.sealed, last.op, last.ob, last.ign)
 Inv_C03_Altered     == Obs => P_C03_Altered(pre, disk, last.op, last.ob, last.ign)
 Inv_C03_Removed     == Obs => P_C03_Removed(pre, disk, last.op, last.ob, last.ign)
 Inv_C03_Added       == Obs => P_C03_Added(pre, disk, last.op, last.ob, last.ign)
@@ -248,6 +249,8 @@ Inv_C19_InfoSF      == (Obs /\ last.op.op = "infosf") => P_C19_InfoSF(pre, disk,
 Inv_C14_Frame       == (Obs /\ last.op.op \notin {"create", "createsf"}) => hist = pre
 Inv_C09_Identical   == (Obs /\ last.op.op = "verifydh") => P_C09_Identical(pre, disk, last.op, last.ob)
 Inv_C09_Detects     == (Obs /\ last.op.op = "verifydh" /\ UniformFormats(pre, disk, last.op.R)) => P_C09_Detects(pre, disk, last.op, last.ob)
+Inv_C17_Renamed     == (Obs /\ last.op.op = "create") => P_C17_Renamed(pre, hist, disk, last.op, last.ob, last.ign)
+Inv_C17_Altered     == (Obs /\ last.op.op = "verify") => P_C17_Altered(pre, disk, last.op, last.ob, last.ign)
 Inv_NoInternal      == ~last.ob.internal
 \* C04 as an action property: the first recorded digest of a path and format never changes
 Act_C04_FirstRefStable ==
